@@ -140,6 +140,24 @@ DESC = {
     "C10-10": "np.gradient VJP keeps map(int, axis) (an iterator) in its closure (second call of the VJP function returns zeros)",
     "C19-9": "defvjp_argnum builds its rules lazily at the first backward pass and memoises a partially built list when a later rule fails",
     "C19-10": "two edits: one shared ArrayVSpace instance per (shape, dtype) + ones() memoised on the instance (a caller's in-place update of a returned gradient changes later seeds)",
+    "C04-7": "p-norm JVP drops the conjugate of x (complex vector norms with ord not in {None, 2, fro}); same site as C09-6",
+    "C04-8": "two edits: repeat_to_match_shape honours keepdims is True + grad_np_sum turns its keepdims slot into a bool (a dtype passed positionally lands in that slot)",
+    "C09-7": "solve VJP wrt b takes its metadata from the solution instead of b (complex matrix, real right-hand side: complex gradient)",
+    "C09-8": "two edits: unbroadcast_einsum sums itself without projecting + grad_einsum applies match_complex only without Ellipsis (real operand, complex partner, sublist form with Ellipsis)",
+    "C11-7": "two edits: backward_pass stores an owned first dense contribution as mutable + the add VJP hands one reduced array to both operands (two accumulators share memory)",
+    "C11-8": "sparse_add restarts from zeros when the accumulator is not writeable (rank-0 value: two dense contributions, then an indexed one)",
+    "C12-7": "grad_container_take rewrites a slice through slice.indices (negative step through index 0 becomes an empty slice: zero cotangent)",
+    "C12-8": "two edits: ArrayVSpace.zeros returns a numpy scalar for rank 0 + mut_add onto nothing relies on in-place accumulation (scalar leaves: dense then sparse contribution)",
+    "C13-7": "two edits: one shared space object per NumPy scalar type + SequenceVSpace._kv_pairs skips a child object it has already seen (standard_basis incomplete)",
+    "C13-8": "vspace() caches the last (value, space) pair by identity (stale after an in-place change of the value)",
+    "C15-7": "empty_like / full_like added to the non-differentiable functions (a traced fill_value is silently a constant)",
+    "C15-8": "two edits: make_diagonal supports offsets for axes (-1, -2) + grad_diagonal rewrites (-2, -1) to (-1, -2) without negating the offset",
+    "C17-7": "two edits: defvjp_argnums also indexes rules by the undecorated function + VJPNode falls back to that index (a rule-less primitive borrows another wrapper's rule)",
+    "C17-8": "translate_jvp(None) zero of the argument's space instead of the output's (same idea as C17-4 / C14-6)",
+    "C18-7": "DictVSpace._map pairs dict entries by position instead of by key (gradient dicts built in another key order)",
+    "C18-8": "two edits: JVPNode prefers a rule stored on the primitive + defjvp_argnums stores only the first registration there (forward-mode twin of C18-5)",
+    "C20-9": "two edits: one shared root node per node type + make_jvp sets the tangent on that shared root afterwards (forward-mode traces of two threads share a tangent)",
+    "C20-10": "checkpoint memoises its recomputed VJP per checkpointed function in two dicts written at different times (threads sharing a checkpointed function)",
     "C20-3": "TraceStack.__init__ with a mutable default list shared by all threads",
     "C20-4": "trace() saves/restores the depth through a module-level list shared by all threads",
 }
